@@ -43,6 +43,18 @@ pub fn check<U: CircuitUni>(p: &Program, hash_seed: u64, cfg: &ProverCfg) -> Ver
     let pubs: Vec<U::EF> = p.publics.iter().map(|v| f_from_u64s::<U::BF, U::EF>(v)).collect();
     let privs: Vec<U::EF> = p.privates.iter().map(|v| f_from_u64s::<U::BF, U::EF>(v)).collect();
     let w = opsat::byzantine_assignment(&circuit, &pubs, &privs);
+    if std::env::var("VERIF_DUMP_OPS").is_ok() {
+        for (i, op) in circuit.ops.iter().enumerate() {
+            eprintln!("op {i}: {op:?}");
+        }
+        let mut tags: Vec<_> = circuit.tag_to_witness.iter().collect();
+        tags.sort();
+        eprintln!("tags: {tags:?}");
+        eprintln!("public_rows {:?} private_rows {:?}", circuit.public_rows, circuit.private_input_rows);
+        for (i, v) in w.iter().enumerate() {
+            eprintln!("w[{i}] = {v:?}");
+        }
+    }
     if opsat::ops_violation(&circuit, &w, &pubs).is_some() {
         return Verdict::Fine; // the emitted ops do reject this assignment
     }
@@ -74,9 +86,11 @@ pub fn check<U: CircuitUni>(p: &Program, hash_seed: u64, cfg: &ProverCfg) -> Ver
     }
     let mut why = r2.first_violation.clone();
     if why.is_none() {
+        // the product slot of a fused MulAdd that nothing else mentions is a don't-care
+        let dont_care = opsat::pure_intermediate_slots(&circuit);
         for (i, v) in r2.vals.iter().enumerate() {
             if let (Some(v), Some(wid)) = (v, circuit.tag_to_witness.get(&format!("v{i}"))) {
-                if w[wid.0 as usize] != *v {
+                if w[wid.0 as usize] != *v && !dont_care.contains(&wid.0) {
                     let ci = r2.out_base.iter().rposition(|b| *b <= i).unwrap_or(0);
                     why = Some(format!("call {ci}: slot of the expression holds a value the expression does not denote"));
                     break;
@@ -144,7 +158,28 @@ pub fn one_run<U: CircuitUni>(ctx: &Ctx, idx: u64, out: &mut RunOut) {
                 }
             }
             Verdict::Skipped(w) => out.count(&format!("skipped_{w}")),
-            Verdict::DroppedUnconfirmed(_) => out.count("ops_accept_but_proof_system_rejects"),
+            Verdict::DroppedUnconfirmed(w) if w.contains("forged trace rejected at keygen") => {
+                // key generation does not see the assignment: the circuit cannot be proven by
+                // anybody, so the real AIRs never get to contradict the op-list evaluator, and the
+                // property is stated on the operation list alone
+                out.count("dropped_relation_in_unprovable_circuit");
+                let still = |q: &Program| -> bool { matches!(check::<U>(q, h, &cfg), Verdict::DroppedUnconfirmed(x) if x.contains("forged trace rejected at keygen")) };
+                let m = gprog::minimise(&p, U::D, &still);
+                let why_m = match check::<U>(&m, h, &cfg) {
+                    Verdict::DroppedUnconfirmed(x) => x,
+                    _ => w,
+                };
+                out.violate(
+                    format!("{}:circuit_refused_by_keygen", key_of(&m, &why_m)),
+                    format!("inputs violate the source program ({}); an assignment satisfying every emitted op exists (the relation is implied by no emitted op); key generation refuses the circuit, so no proof of it exists either way", why_m.chars().take(300).collect::<String>()),
+                    json!({"universe": U::NAME, "program": m, "hash_seed": h, "unconfirmed": true}),
+                );
+            }
+            Verdict::DroppedUnconfirmed(w) => {
+                out.count("ops_accept_but_proof_system_rejects");
+                let stage = w.split("forged trace rejected at ").nth(1).unwrap_or("?").split(|c: char| !c.is_alphanumeric() && c != ' ' && c != ':').next().unwrap_or("?").replace([' ', ':'], "_");
+                out.count(&format!("unconfirmed_at_{}", stage.chars().take(60).collect::<String>()));
+            }
             Verdict::DroppedConfirmed(why) => {
                 out.count("dropped_relation_confirmed");
                 let still = |q: &Program| -> bool { matches!(check::<U>(q, h, &cfg), Verdict::DroppedConfirmed(_)) };
@@ -178,7 +213,8 @@ pub fn replay(ctx: &Ctx, body: &serde_json::Value) -> i32 {
     let h = d["hash_seed"].as_u64().unwrap_or(1);
     let v = crate::with_uni!(d["universe"].as_str().unwrap_or(""), U, check::<U>(&p, h, &ProverCfg::default()));
     println!("replay verdict: {v:?}");
-    if matches!(v, Verdict::DroppedConfirmed(_)) {
+    let unprovable = d["unconfirmed"].as_bool().unwrap_or(false) && matches!(&v, Verdict::DroppedUnconfirmed(x) if x.contains("forged trace rejected at keygen"));
+    if matches!(v, Verdict::DroppedConfirmed(_)) || unprovable {
         println!("VIOLATION property={} replay={}", ctx.prop, ctx.replay.as_ref().unwrap().display());
         1
     } else {
